@@ -21,6 +21,17 @@ def run(ctx):
         xs = G.gen_seq(rng, dt, rng.choice([1, 5, 50, 300, 1200]))[0]
         others = [G.gen_seq(rng, dt, rng.choice([1, 20, 200]))[0] for _ in range(2)]
         cases.append((dt, cfg, xs, others))
+    # earlier chunks of nearly the same size (same power-of-two bracket, a little smaller or larger) at high levels,
+    # clustered data: anything remembered from the previous chunk's size or table would show here
+    for _ in range(40 if ctx.quick else 400):
+        dt = rng.choice([d for d in S.ALL_DT if d != "bool"])
+        cfg = (rng.choice([9, 10, 11, 12, 12]), rng.choice([0, 0, 1]), rng.below(2))
+        n = rng.choice([3, 40, 70, 90, 120, 200, 300, 500])
+        lo = 1 << (n.bit_length() - 1)
+        sizes = [rng.range(lo, n), rng.range(lo, min(2 * lo - 1, n + 20))]
+        xs = G.gen_seq(rng, dt, n, "cluster")[0]
+        others = [G.gen_seq(rng, dt, m, rng.choice(["cluster", "dups", "small"]))[0] for m in sizes]
+        cases.append((dt, cfg, xs, others))
     lines = []
     for dt, (lv, od, g), xs, oth in cases:
         hx, a, b = G.hexlist(xs), G.hexlist(oth[0]), G.hexlist(oth[1])
